@@ -126,7 +126,7 @@ _ROOT = os.path.dirname(os.path.dirname(os.path.abspath(__file__)))
 # Every check also runs a slice of the broad families: a change that breaks property X often
 # manifests only in a scenario another family generates, and the state correspondence compares
 # the complete dump on every script whatever its family.
-BROAD = [("stream", 400, 8000), ("csi", 400, 8000), ("emit", 300, 6000), ("resize", 200, 4000), ("table", 300, 10000), ("exh", 600, 60000)]
+BROAD = [("stream", 400, 8000), ("csi", 400, 8000), ("emit", 300, 6000), ("resize", 200, 4000), ("table", 300, 10000), ("exh", 6000, 1213568)]
 for _pid, _info in PROPS.items():
     _have = {f for f, _, _ in _info["families"]}
     _info["families"] = list(_info["families"]) + [b for b in BROAD if b[0] not in _have]
